@@ -16,10 +16,10 @@
 /// logic.
 
 #[test]
-fn kani_concrete_playback_c18_write_single_passthrough_11889976315191880905() {
+fn kani_concrete_playback_c18_write_single_passthrough_14681793671133113856() {
     let concrete_vals: Vec<Vec<u8>> = vec![
-        // 186
-        vec![186],
+        // 5
+        vec![5],
         // 0
         vec![0],
         // 255
@@ -32,6 +32,78 @@ fn kani_concrete_playback_c18_write_single_passthrough_11889976315191880905() {
         vec![1],
         // 0
         vec![0],
+    ];
+    kani::concrete_playback_run(concrete_vals, c18_write_single_passthrough);
+}
+
+/// Test generated for harness `server::verif_ffi_server::c18_write_single_passthrough` 
+///
+/// Check for `cover`: "coil write refused with ServerDeviceFailure"
+///
+/// # Warning
+///
+/// Concrete playback tests combined with stubs or contracts is highly
+/// experimental, and subject to change.
+///
+/// The original harness has stubs which are not applied to this test.
+/// This may cause a mismatch of non-deterministic values if the stub
+/// creates any non-deterministic value.
+/// The execution path may also differ, which can be used to refine the stub
+/// logic.
+
+#[test]
+fn kani_concrete_playback_c18_write_single_passthrough_15264093302425634184() {
+    let concrete_vals: Vec<Vec<u8>> = vec![
+        // 13
+        vec![13],
+        // 0
+        vec![0],
+        // 255
+        vec![255],
+        // 1
+        vec![1],
+        // 0
+        vec![0, 0],
+        // 1
+        vec![1],
+        // 0
+        vec![0],
+    ];
+    kani::concrete_playback_run(concrete_vals, c18_write_single_passthrough);
+}
+
+/// Test generated for harness `server::verif_ffi_server::c18_write_single_passthrough` 
+///
+/// Check for `assertion`: ""[C18] write_single_register: the application's WriteResult is what the client receives""
+///
+/// # Warning
+///
+/// Concrete playback tests combined with stubs or contracts is highly
+/// experimental, and subject to change.
+///
+/// The original harness has stubs which are not applied to this test.
+/// This may cause a mismatch of non-deterministic values if the stub
+/// creates any non-deterministic value.
+/// The execution path may also differ, which can be used to refine the stub
+/// logic.
+
+#[test]
+fn kani_concrete_playback_c18_write_single_passthrough_7415694268561413458() {
+    let concrete_vals: Vec<Vec<u8>> = vec![
+        // 5
+        vec![5],
+        // 0
+        vec![0],
+        // 255
+        vec![255],
+        // 1
+        vec![1],
+        // 0
+        vec![0, 0],
+        // 0
+        vec![0],
+        // 0
+        vec![0, 0],
     ];
     kani::concrete_playback_run(concrete_vals, c18_write_single_passthrough);
 }
@@ -52,18 +124,18 @@ fn kani_concrete_playback_c18_write_single_passthrough_11889976315191880905() {
 /// logic.
 
 #[test]
-fn kani_concrete_playback_c18_write_single_passthrough_11903511488365567045() {
+fn kani_concrete_playback_c18_write_single_passthrough_2457158464013948505() {
     let concrete_vals: Vec<Vec<u8>> = vec![
-        // 189
-        vec![189],
+        // 9
+        vec![9],
         // 0
         vec![0],
-        // 0
-        vec![0],
+        // 255
+        vec![255],
         // 1
         vec![1],
-        // 65535
-        vec![255, 255],
+        // 0
+        vec![0, 0],
         // 0
         vec![0],
         // 0
@@ -88,22 +160,22 @@ fn kani_concrete_playback_c18_write_single_passthrough_11903511488365567045() {
 /// logic.
 
 #[test]
-fn kani_concrete_playback_c18_write_single_passthrough_6781941319194787726() {
+fn kani_concrete_playback_c18_write_single_passthrough_12946526698608815839() {
     let concrete_vals: Vec<Vec<u8>> = vec![
-        // 186
-        vec![186],
+        // 3
+        vec![3],
         // 1
         vec![1],
         // 255
         vec![255],
         // 1
         vec![1],
-        // 65535
-        vec![255, 255],
-        // 1
-        vec![1],
+        // 0
+        vec![0, 0],
         // 0
         vec![0],
+        // 0
+        vec![0, 0],
     ];
     kani::concrete_playback_run(concrete_vals, c18_write_single_passthrough);
 }
